@@ -186,15 +186,17 @@ def emit_extra(h, rng, U, kind):
 
 
 EXTRAS = {
-    "C01": {"get": 0.18, "getmut": 0.05, "clear": 0.004},
-    "C02": {"iter": 0.08, "slices": 0.05, "clear": 0.003, "getmut": 0.04},
-    "C03": {"range": 0.12, "irange": 0.05, "frompos": 0.05, "clear": 0.003, "getmut": 0.03},
-    "C04": {"validate": 0.04, "clear": 0.004},
+    # the calls a property speaks about, plus a thin stream of every other kind of call: a defect in one entry point
+    # often shows only through another (a write through get_mut seen by iteration, a checked call seen by the arenas)
+    "C01": {"get": 0.18, "getmut": 0.05, "clear": 0.004, "checked": 0.02},
+    "C02": {"iter": 0.08, "slices": 0.05, "clear": 0.003, "getmut": 0.04, "checked": 0.02},
+    "C03": {"range": 0.12, "irange": 0.05, "frompos": 0.05, "clear": 0.003, "getmut": 0.03, "checked": 0.02},
+    "C04": {"validate": 0.04, "clear": 0.004, "checked": 0.04, "getmut": 0.01},
     "C05": {"iter": 0.05, "slices": 0.03, "range": 0.04, "irange": 0.02, "frompos": 0.03,
-            "validate": 0.03, "get": 0.03, "clear": 0.003},
-    "C06": {"intro": 0.06, "clear": 0.006},
-    "C10": {"checked": 0.25, "validate": 0.03, "clear": 0.003},
-    "C11": {"getmut": 0.06, "clear": 0.006, "get": 0.03, "checked": 0.08},
+            "validate": 0.03, "get": 0.03, "clear": 0.003, "checked": 0.04, "getmut": 0.02, "intro": 0.02},
+    "C06": {"intro": 0.06, "clear": 0.006, "checked": 0.05, "validate": 0.02},
+    "C10": {"checked": 0.25, "validate": 0.03, "clear": 0.003, "getmut": 0.01, "iter": 0.01},
+    "C11": {"getmut": 0.06, "clear": 0.006, "get": 0.03, "checked": 0.08, "iter": 0.01},
 }
 
 
